@@ -102,8 +102,12 @@ def h_roundtrip(spec, cls, raw, off, key, absolute_nonzero=False):
             return r
         # acceptance / value disagreements belong to C04/C06/C08; C01 only speaks about accepted inputs
         return "ok:not-comparable"
-    tag = "|begins-reference-with-nonzero-offset" if absolute_nonzero else ""
+    tag = ""
     overl = _overlaps(ref.consumed)
+    if absolute_nonzero:
+        # declarations positioned relative to the start of the data, parsed at a non-zero start offset: any
+        # discrepancy is the known class "pack() cannot know the original offset" (finding F9)
+        return _roundtrip_abs(p, ref, raw, off, overl)
     try:
         out = p.pack()
     except PacketError as e:
@@ -164,10 +168,15 @@ def h_context(spec, cls, raw, off, key, readtoend=False, regex_ext=False):
         return "FAIL sig=C14|end-offset-not-shifted|%s %r vs %r" % (key, end1, end2)
     if readtoend or regex_ext:
         return "ok:accepted"
-    # bytes after the parsed region do not matter
-    p3, end3, err3 = run_real(cls, raw[:end1], off)
+    # bytes after the parsed region do not matter; the region reaches to the furthest position traversed
+    # (positioned fields may leave the final cursor before bytes that were read), taken from the reference
+    ref, rej = run_ref(spec, raw, off)
+    if ref is None or ref.end != end1:
+        return "ok:accepted-not-comparable"
+    far = ref.furthest
+    p3, end3, err3 = run_real(cls, raw[:far], off)
     if p3 is None:
-        return "FAIL sig=C14|suffix-needed-for-acceptance|%s end=%r" % (key, end1)
+        return "FAIL sig=C14|suffix-needed-for-acceptance|%s end=%r furthest=%r" % (key, end1, far)
     if R.observe(p3, spec) != o1 or end3 != end1:
         return "FAIL sig=C14|suffix-changes-result|%s" % key
     return "ok:accepted"
@@ -207,4 +216,24 @@ def h_positions(spec, cls, raw, off, key):
         return "ok:accepted"
     if out != want:
         return "FAIL sig=C10|differs-from-declared-layout|%s out=%r want=%r" % (key, out, want)
+    return "ok:accepted"
+
+
+def _roundtrip_abs(p, ref, raw, off, overl):
+    sig = "FAIL sig=C01|begins-reference-with-nonzero-offset"
+    try:
+        out = p.pack()
+    except PacketError:
+        return "ok:overlap-rejected" if overl else sig
+    if overl or len(out) > ref.furthest - off:
+        return sig
+    for i in range(len(out)):
+        pos = off + i
+        inside = False
+        for a, b in ref.consumed:
+            if a <= pos < b:
+                inside = True
+                break
+        if out[i] != (raw[pos] if inside else 46):
+            return sig
     return "ok:accepted"
